@@ -459,14 +459,15 @@ theorem mailbox_close_eq (ctx : Ctx) (side : String) (mood : Option String) (t :
 
 /-! ### coverage -/
 
-/-- the seven methods are there, under these names -/
+/-- the translated methods are there, under these names -/
 theorem translated_methods : GenSrv.table.map (·.1) =
-    ["Mailbox.open", "Mailbox._touch", "Mailbox._add_message", "Mailbox.close", "AppNamespace._add_mailbox", "AppNamespace.open_mailbox",
+    ["Mailbox.open", "Mailbox._touch", "Mailbox._add_message", "Mailbox.close",
+     "AppNamespace._summarize_nameplate_and_store", "AppNamespace._summarize_mailbox_and_store", "AppNamespace._add_mailbox", "AppNamespace.open_mailbox",
      "AppNamespace.claim_nameplate", "AppNamespace.release_nameplate"] := by rfl
 
-/-- what the translated bodies call: translated methods, or the one primitive of `callee0` -/
+/-- what the translated bodies call: translated methods, or the two summary functions (translate_summ.py, Tie/SrvSumm.lean) -/
 theorem calls_resolved : (GenSrv.table.flatMap (fun m => XS.callsL m.2.body)).all
-    (fun c => c ∈ GenSrv.table.map (·.1) ∨ c = "AppNamespace._summarize_nameplate_and_store"
-      ∨ c = "AppNamespace._summarize_mailbox_and_store") = true := by decide
+    (fun c => c ∈ GenSrv.table.map (·.1) ∨ c = "AppNamespace._summarize_nameplate_usage"
+      ∨ c = "AppNamespace._summarize_mailbox") = true := by decide
 
 end Wormhole.PySrv
